@@ -6,6 +6,7 @@ package main
 import (
 	"errors"
 	"fmt"
+	"io"
 	"reflect"
 )
 
@@ -271,8 +272,11 @@ func driveC07(c *driverCtx) error {
 			if len(rf.inputs) > 12 && i%9 != 0 {
 				continue
 			}
-			r := readBack(typ, rf.bytes, readerKinds[(i)%len(readerKinds)], i%2 == 0, i, errSentinel)
-			ev := readerOutcome(r, errSentinel)
+			// the error is the caller's: whatever it is -- a private sentinel, io.EOF, io.ErrUnexpectedEOF, something
+			// wrapped -- it comes back unchanged
+			sentinel := []error{errSentinel, io.EOF, io.ErrUnexpectedEOF, fmt.Errorf("wrapped: %w", io.EOF), errSentinel}[i%5]
+			r := readBack(typ, rf.bytes, readerKinds[(i)%len(readerKinds)], i%2 == 0, i, sentinel)
+			ev := readerOutcome(r, sentinel)
 			ev["op"], ev["failAt"] = "rd_cb", i
 			c.rec.Emit(key, ev)
 		}
